@@ -584,9 +584,9 @@ func runParent(args []string) error {
 	probe := func(tag string) {
 		for i, s := range []*tcpClient{s1, s2} {
 			t0 := time.Now()
-			_, err := s.request(10*time.Second, []int{sim.TGetUserNameList, sim.TGetMsgs}[i])
+			_, err := s.request(sim.Patience(10*time.Second), []int{sim.TGetUserNameList, sim.TGetMsgs}[i])
 			if err != nil { // retried once
-				_, err = s.request(10*time.Second, sim.TKeepAlive)
+				_, err = s.request(sim.Patience(10*time.Second), sim.TKeepAlive)
 			}
 			s.inbox = nil
 			evs = append(evs, map[string]any{"op": "probe", "run": 1, "tag": tag, "sentinel": i + 1, "ok": err == nil, "ms": time.Since(t0).Milliseconds()})
